@@ -216,6 +216,19 @@ func (m *Machine) raiseValue(v Value) {
 	panic(raised{})
 }
 
+// entryRepoFn is the outermost non-harness repository function on the stack (the API entry the harness called).
+func (m *Machine) entryRepoFn() string {
+	for _, fr := range m.stack {
+		if isRepoPkg(fr.fn.Pkg) && !strings.Contains(fr.fn.Name(), "zz") {
+			return fr.fn.String()
+		}
+		if fr.fn.Pkg == nil && fr.fn.Parent() != nil && isRepoPkg(fr.fn.Parent().Pkg) && !strings.Contains(fr.fn.Parent().Name(), "zz") {
+			return fr.fn.Parent().String()
+		}
+	}
+	return "?"
+}
+
 func (m *Machine) stackNames() []string {
 	var r []string
 	for i := len(m.stack) - 1; i >= 0 && len(r) < 8; i-- {
@@ -444,7 +457,7 @@ func (m *Machine) runUntilEvent() (ev interface{}) {
 		m.pathStep++
 		m.Steps++
 		if m.pathStep > m.maxSteps {
-			m.reportSite("unwind", m.where(), m.site(), "step budget exceeded", m.stackNames())
+			m.reportSite("unwind", m.where(), "unwind: "+m.entryRepoFn(), "step budget exceeded", m.stackNames())
 			return pathEnd{"budget"}
 		}
 		m.stepCatch()
